@@ -529,6 +529,10 @@ func (c04) RunCase(c *core.Ctx) {
 			c.Violation("absent-value-mishandled|deep-record", map[string]any{"schema": "node = {val: Int().Required(), tag: String().Default(dflt), next: Ptr(node)}", "observed": problem})
 			return
 		}
+		if problem := c04Directed(); problem != "" {
+			c.Violation("absent-value-mishandled|directed", map[string]any{"observed": problem})
+			return
+		}
 		if problem := c04Fronts(); problem != "" {
 			c.Violation("absent-value-mishandled|front-end-record", map[string]any{"observed": problem})
 			return
@@ -611,6 +615,41 @@ func c04Random(c *core.Ctx) {
 // c04Fronts: a record that is present but whose members are all absent - environment variables behind a top-level Ptr(Struct), a JSON
 // document whose members are all null - is a present record: the pointer is allocated, defaults apply, required fields are reported
 // (under the key their source tag names).
+// c04Directed: (a) absence is decided on the input, not on what a coercer makes of it: a present input that a custom coercer turns into ""
+// is a present value; (b) context values are the application's: whatever keys it uses, blank input stays absent.
+func c04Directed() string {
+	blanker := func(d any) (any, error) {
+		if d == "N/A" {
+			return "", nil
+		}
+		return fmt.Sprint(d), nil
+	}
+	var s1 string
+	l := z.String(z.WithCoercer(blanker)).Required().Parse("N/A", &s1)
+	s2 := "stale"
+	l2 := z.String(z.WithCoercer(blanker)).Default("dflt").Parse("N/A", &s2)
+	s3 := "stale"
+	l3 := z.String(z.WithCoercer(blanker)).Min(3).Parse("N/A", &s3)
+	if len(l) != 0 || s1 != "" || len(l2) != 0 || s2 != "" || len(l3) != 1 || l3[0].Code != "min" {
+		return fmt.Sprintf("String(WithCoercer(N/A -> \"\")) on the present input \"N/A\": Required() gives %v / %q, Default(dflt) gives %v / %q, Min(3) gives %v; want no issue and \"\", no issue and \"\", one min issue", z.Issues.SanitizeList(l), s1, z.Issues.SanitizeList(l2), s2, z.Issues.SanitizeList(l3))
+	}
+	var opts []z.ExecOption
+	for _, k := range []string{"trim", "required", "optional", "strict", "coerce", "default", "zero", "blank", "parse", "mode"} {
+		opts = append(opts, z.WithCtxValue(k, false))
+	}
+	type rec struct {
+		Name string
+		Tags []string
+		P    *string
+	}
+	d := rec{Name: "stale"}
+	m := z.Struct(z.Schema{"name": z.String().Required(), "tags": z.Slice(z.String()).Default([]string{"d"}), "p": z.Ptr(z.String())}).Parse(map[string]any{"name": "   ", "tags": " ", "p": "\t"}, &d, opts...)
+	if dKeys(m) != "name" || fmt.Sprint(d.Tags) != "[d]" || d.P != nil || d.Name != "stale" {
+		return fmt.Sprintf("blank inputs with the application's own context values (trim, required, optional, strict, ... = false): issues [%s], destination %+v; want one required issue at name, tags [d], p nil, name untouched", dKeys(m), d)
+	}
+	return ""
+}
+
 func c04Fronts() string {
 	type cfg struct {
 		Host string `env:"C04_HOST" json:"host_name"`
